@@ -21,7 +21,7 @@ PY
 head=$(git -C /repo rev-parse --short HEAD)
 while read seed base own checks; do
   [ -z "$checks" ] && continue
-  opt=""; [ "$base" != "$head" ] && opt="-B $base"
+  opt=""; git -C /repo apply --check /verif/seeded/$seed/patch.diff 2>/dev/null || opt="-B $base"
   out=$(./selftest/try.sh $opt seeded/$seed/patch.diff $checks 2>&1 | grep -E "^== ")
   for c in $checks; do echo "$out" | grep -q "$c exit=1" || { echo "MISSED seeded/$seed by $c"; fail=1; }; done
 done < /tmp/seedlist.txt
